@@ -110,6 +110,7 @@ func (r *Run) NoteReject(msg string) {
 }
 
 func (r *Run) Count(k string, n int) { r.mu.Lock(); r.counters[k] += n; r.mu.Unlock() }
+
 // MergeCounts adds selected entries of m to the counters under a prefix.
 func (r *Run) MergeCounts(prefix string, m map[string]int, keys []string) {
 	r.mu.Lock()
